@@ -305,7 +305,7 @@ Section Hits.
 
     Fixpoint build_hits (ctx : qctx) (f : from_clause stmt) : Prop :=
       match f with
-      | FDual | FTableFn _ _ _ => False
+      | FDual | FTableFn _ _ _ | FSel _ _ => False
       | FTable path alias =>
           match path with
           | [] => False
@@ -439,7 +439,7 @@ Section Hits.
 
       Lemma build_surfaces : forall f ctx, build_hits ctx f -> fails ap (build_from rec' join' ctx f).
       Proof.
-        induction f as [|path alias|fn path alias|q alias|jt st l IHl r IHr on]; intros ctx H;
+        induction f as [|path alias|fn path alias|sl alias|q alias|jt st l IHl r IHr on]; intros ctx H;
           cbn [build_hits] in H; try contradiction; cbn [build_from].
         - destruct path as [|k rest]; [contradiction|].
           destruct (cte_lookup k (c_ctes ctx)) as [body|].
